@@ -539,6 +539,17 @@ def install_auc(sess, max_pairs=6000):
             sess.skip("M-auc", "limits outside 0<=lower<=upper<=1")
             return
         if len(s.pos) * len(s.neg) > max_pairs:
+            a_ = {"lower": 0.0, "upper": 1.0, "x_axis": "fpr", "y_axis": "tpr"}
+            a_.update(dict(zip(["lower", "upper"], args[1:])))
+            a_.update(kwargs)
+            if (float(a_["lower"]), float(a_["upper"]), a_["x_axis"], a_["y_axis"]) == (0.0, 1.0, "fpr", "tpr"):
+                # large evaluation sets: the full default-axes AUC against the Mann-Whitney statistic counted exactly by binary search
+                exp_ = float(R.mann_whitney_large(np.asarray(s.pos), np.asarray(s.neg), int(s.nb_easy_pos), int(s.nb_easy_neg), cfg_of(s)[0]))
+                got_ = float(res)
+                sess.check("M-auc", abs(got_ - exp_) <= 1e-9, "full AUC of a large evaluation set differs from the Mann-Whitney statistic",
+                           lambda: {"nb_pos": len(s.pos), "nb_neg": len(s.neg), "easy": [int(s.nb_easy_pos), int(s.nb_easy_neg)], "cfg": list(cfg_of(s)), "got": got_, "expected": exp_,
+                                    "pos": np.asarray(s.pos), "neg": np.asarray(s.neg)}, sig=(cfg_of(s), "large"), key="auc-full-large")
+                return
             sess.skip("M-auc", "too large for the exact reference")
             return
         pos, neg = np.asarray(s.pos).tolist(), np.asarray(s.neg).tolist()
@@ -612,7 +623,13 @@ def bci_tolerance(theta, expected):
     rng_ = float(fin.max() - fin.min()) if fin.size else 0.0
     n = np.asarray(theta).shape[0]
     mag = float(np.abs(fin).max()) if fin.size else 0.0  # relative to the replicates' own magnitude (rates of 1e-5 are data, too)
-    return 1e-9 * np.maximum(mag if mag > 0 else 1.0, np.abs(expected)) + 4e-14 * n * rng_
+    base = 1e-9 * np.maximum(mag if mag > 0 else 1.0, np.abs(expected)) + 4e-14 * n * rng_
+    th_ = np.asarray(theta)
+    if th_.dtype.kind == "f" and th_.dtype.itemsize < 8:
+        # single/half-precision replicates: the library's bc/bca terms are formed in that precision, which moves the interpolated limits by
+        # a corresponding fraction of the replicate range (a limit on the wrong replicate is a whole grid step, far above this)
+        base = base + 512 * float(np.finfo(th_.dtype).eps) * max(rng_, mag)
+    return base
 
 
 def install_bci(sess, keep=False):
@@ -761,7 +778,8 @@ def judge_sample(sess, s, config, b, facets, monitor="M-bs"):
         C(bool(np.all(bp[1:] >= bp[:-1])) and bool(np.all(bn[1:] >= bn[:-1])), "sample arrays not ascending", "bs-sorted")
         # metrics of the sample equal direct counting over what the sample was built from
         allv = np.concatenate([bp.astype(float), bn.astype(float)])
-        if allv.size:
+        exact_in_float = bp.dtype.kind == "f" and bn.dtype.kind == "f" or not allv.size or float(np.abs(allv).max()) <= 2.0 ** 53
+        if allv.size and exact_in_float:  # (64-bit integers beyond 2**53 against float thresholds: which side of a threshold they fall is a matter of rounding)
             q = np.quantile(allv, [0.25, 0.5, 0.8])
             judge_cm(sess, b, q, b.cm(q).matrix, monitor=monitor, sig_extra=("sample-cm",))
         if not config.smoothing:
@@ -797,11 +815,17 @@ def judge_sample(sess, s, config, b, facets, monitor="M-bs"):
             else:
                 s._vmon_owner = owner = False
         if owner is False:
-            sess.skip(monitor, "group source without unique scores: labels not identifiable")
+            # tied scores: a sampled element cannot be traced to one source element, but every (value, class, group) triple of the sample must
+            # exist in the source, and the count clauses below do not need identities at all
+            src_p = {(float(v), str(g)) for v, g in zip(s.pos, s.pos_groups)}
+            src_n = {(float(v), str(g)) for v, g in zip(s.neg, s.neg_groups)}
+            C(all((float(v), str(g)) in src_p for v, g in zip(b.pos, b.pos_groups)) and all((float(v), str(g)) in src_n for v, g in zip(b.neg, b.neg_groups))
+              and len(b.pos) == len(b.pos_groups) and len(b.neg) == len(b.neg_groups), "a sampled (score, group) pair does not exist in the source", "gs-attached-ties")
         else:
             ok_p = all(owner.get(float(v)) == ("p", str(g)) for v, g in zip(b.pos, b.pos_groups))
             ok_n = all(owner.get(float(v)) == ("n", str(g)) for v, g in zip(b.neg, b.neg_groups))
             C(ok_p and ok_n and len(b.pos) == len(b.pos_groups) and len(b.neg) == len(b.neg_groups), "a sampled score carries a different group label than in the source", "gs-attached")
+        if True:
             C([str(g) for g in b.groups] == [str(g) for g in s.groups], "list/order of group names not preserved in the sample", "gs-groups")
             bp, bn = np.asarray(b.pos), np.asarray(b.neg)
             C(bool(np.all(bp[1:] >= bp[:-1])) and bool(np.all(bn[1:] >= bn[:-1])), "group sample arrays not ascending", "gs-sorted")
